@@ -57,6 +57,13 @@ def reward_of(dna):
   return float(dna.to_numbers()[0]) + 1.0
 
 
+class StopOdd(pg.tuning.EarlyStoppingPolicy):
+  """Stops trials whose first measurement is odd (a pure function of the trial)."""
+
+  def should_stop_early(self, trial):
+    return bool(trial.measurements) and int(trial.measurements[0].reward) % 2 == 1
+
+
 def make_harness(spec_name):
   """Returns (bodies, observe) for a fresh execution."""
   _N[0] += 1
@@ -68,12 +75,20 @@ def make_harness(spec_name):
   n = cfg['n']
   seen = [[] for _ in cfg['workers']]
   events = []
+  by_group = {}
+  order_bad = []
+  policy = StopOdd() if cfg.get('early_stop') else None
 
   def worker(i, group, plan):
     def body():
       step = 0
-      for example, feedback in pg.sample(sp, algo, num_examples=n, name=study, group=group):
+      for example, feedback in pg.sample(sp, algo, num_examples=n, name=study, group=group, early_stopping_policy=policy):
         seen[i].append(feedback.id)
+        mine = by_group.setdefault(group, [])
+        for y, ty in mine:
+          if y < feedback.id and ty.status != 'COMPLETED':
+            order_bad.append(f'worker {i} of group {group!r} was given trial {feedback.id} while trial {y} of the same group is {ty.status}')
+        mine.append((feedback.id, feedback.get_trial()))
         action = plan[step % len(plan)]
         step += 1
         with feedback.ignore_race_condition():
@@ -81,7 +96,9 @@ def make_harness(spec_name):
             feedback(reward_of(feedback.dna))
           elif action == 'measure+done':
             feedback.add_measurement(reward_of(feedback.dna), step=1)
-            if not feedback.should_stop_early():
+            if feedback.should_stop_early():
+              feedback.skip()
+            else:
               feedback.done()
           elif action == 'skip':
             feedback.skip()
@@ -89,12 +106,14 @@ def make_harness(spec_name):
             feedback(reward_of(feedback.dna))
             feedback.end_loop()
         events.append((i, feedback.id, action))
+        if action == 'hold':      # this worker leaves with its trial still pending (its group mates finish it)
+          break
     return body
 
   bodies = [worker(i, g, plan) for i, (g, plan) in enumerate(cfg['workers'])]
 
   def observe():
-    out = dict(seen=[list(s) for s in seen])
+    out = dict(seen=[list(s) for s in seen], order_bad=list(order_bad))
     try:
       result = pg.poll_result(study)
     except Exception as e:  # pylint: disable=broad-except
@@ -111,6 +130,10 @@ HARNESSES = {
     'H2b-same-group-skip': dict(algo='sweeping', n=3, workers=[('g', ['skip', 'done']), ('g', ['done'])], same_group=True),
     'H3-two-groups-evolution': dict(algo='evolution', n=3, workers=[('g0', ['done']), ('g1', ['done'])], same_group=False),
     'H5-end-loop': dict(algo='sweeping', n=4, workers=[('g0', ['done', 'end_loop']), ('g1', ['done'])], same_group=False, may_end=True),
+    'H6-early-stop': dict(algo='evolution', n=3, workers=[('g0', ['measure+done']), ('g1', ['measure+done'])], same_group=False,
+                          early_stop=True),
+    'H7-same-group-evolution': dict(algo='evolution', n=3, workers=[('g', ['done']), ('g', ['done'])], same_group=True),
+    'H8-same-group-one-leaves': dict(algo='sweeping', n=3, workers=[('g', ['done']), ('g', ['hold'])], same_group=True),
     'H4-three-workers': dict(algo='sweeping', n=4, workers=[('g0', ['done']), ('g1', ['skip', 'done']), ('g1', ['done'])],
                              same_group=False),
 }
@@ -126,6 +149,8 @@ def check(s, observe, cfg, rec, tr, hname):
       bad.append((f'worker-died:{e[0]}', f'worker {i}: {e[0]}: {e[1]}'))
   if s.deadlock:
     bad.append(('deadlock', f'no thread enabled; blocked={s.blocked} finished={s.finished}'))
+  for t in out.get('order_bad', [])[:1]:
+    bad.append(('group-given-new-trial-before-pending-finished', t))
   if result is None:
     bad.append(('no-shared-result', out.get('poll_error', '')))
   else:
